@@ -331,6 +331,13 @@ public:
                 customChildren = true;
                 if (IS->isConstexpr()) J.attribute("constexpr", true);
                 J.attributeArray("c", [&] { stmt(IS->getCond()); stmt(IS->getThen()); stmt(IS->getElse()); });
+                // if(init; cond) / if(T v = e): kept apart so that "c" stays (cond, then, else)
+                if (IS->getInit() || IS->getConditionVariableDeclStmt()) {
+                    J.attributeArray("pre", [&] {
+                        if (IS->getInit()) stmt(IS->getInit());
+                        if (IS->getConditionVariableDeclStmt()) stmt(IS->getConditionVariableDeclStmt());
+                    });
+                }
             } else if (auto *WS = dyn_cast<WhileStmt>(S)) {
                 customChildren = true;
                 J.attributeArray("c", [&] { stmt(WS->getCond()); stmt(WS->getBody()); });
